@@ -34,7 +34,21 @@ DEFAULT_SIZES = list(range(1, 16, 2)) + [31, 63, 127, 255, 511] + [8, 16, 32, 64
 
 def _flag(check, n, p, q, clause, need_factors, **ctx):
   key = art.rsa_key(n)
-  ret = libcall(check.Check, [key])
+  pre = ctx.pop('pre', None)
+  if pre:
+    # the same check instance sees a healthy key of another size first: in an earlier call (mode 1)
+    # or earlier in the same batch (mode 2) - the verdict on the weak key must not depend on it
+    mode, bits, seed = pre
+    hp, hq = fam.healthy(Material(seed, 'c05pre'), bits)
+    other = art.rsa_key(hp * hq)
+    if mode == 1:
+      libcall(check.Check, [other])
+      ret = libcall(check.Check, [key])
+    else:
+      ret = libcall(check.Check, [other, key])
+    ctx['pre'] = [mode, bits]
+  else:
+    ret = libcall(check.Check, [key])
   name = type(check).__name__
   e = art.entry(key.test_info, name)
   fs = art.factor_set(key.test_info, 'N_FACTORS')
@@ -45,6 +59,13 @@ def _flag(check, n, p, q, clause, need_factors, **ctx):
   if need_factors and fs is None:
     raise Violation(clause + ':not-factored', check=name, n=n, p=p, q=q, **ctx)
   return fs is not None
+
+
+def _pre(desc):
+  sel = desc.get('pre', 0)
+  if not sel:
+    return None
+  return [1 + sel % 2, [512, 1024, 1024, 4096][sel % 4], desc['m'] % 1000]
 
 
 # ---------------------------------------------------------------- (a) word repetition
@@ -61,7 +82,7 @@ def run_pattern(desc):
     if q != p and (p * q).bit_length() == N:
       break
   n = p * q
-  ctx = dict(N=N, w=w, word=word, phase=phase, dev=dev)
+  ctx = dict(N=N, w=w, word=word, phase=phase, dev=dev, pre=_pre(desc))
   if desc['user_list']:
     extra = [1 + Material(desc['m'], 'ul').below(600) for _ in range(desc['user_list'] - 1)]
     lst = Material(desc['m'], 'sh').shuffle(extra + [w])
@@ -79,7 +100,7 @@ def strat_pattern(tier):
   Ns = [1024, 1024, 2048] if tier == 'quick' else [1024, 2048, 3072, 4096]
   return st.fixed_dictionaries({
       'm': material, 'N': st.sampled_from(Ns), 'w': st.integers(0, 40),
-      'user_list': st.sampled_from([0, 0, 1, 3, 6])})
+      'user_list': st.sampled_from([0, 0, 1, 3, 6]), 'pre': st.sampled_from([0, 0, 1, 2, 3, 5, 6])})
 
 
 def enum_pattern(tier):
@@ -122,7 +143,7 @@ def run_permuted(desc):
     if q != p and (p * q).bit_length() == N:
       break
   _flag(single.CheckPermutedBitPatterns(), p * q, p, q, 'permuted', True,
-        N=N, wsize=wsize, psize=psize, word=word, phase=phase, dev=dev)
+        N=N, wsize=wsize, psize=psize, word=word, phase=phase, dev=dev, pre=_pre(desc))
   return {'nt': True, 'cls': ['permuted N=%d' % N, 'permuted wsize=%d' % wsize,
                               'permuted psize=%s' % ('3-7' if psize <= 7 else '9-15' if psize <= 15 else '17+')]}
 
@@ -130,7 +151,7 @@ def run_permuted(desc):
 def strat_permuted(tier):
   Ns = [1024, 2048, 2048] if tier == 'quick' else [1024, 2048, 3072, 4096]
   return st.fixed_dictionaries({'m': material, 'N': st.sampled_from(Ns), 'wsel': st.integers(0, 3),
-                                'psel': st.integers(0, 40)})
+                                'psel': st.integers(0, 40), 'pre': st.sampled_from([0, 0, 1, 2, 3, 5, 6])})
 
 
 def enum_permuted(tier):
